@@ -207,7 +207,8 @@ impl Pool {
                     } else {
                         Verdict::Inconclusive("timeout".into())
                     };
-                } else if e.contains("exit code Some(2)") {
+                } else if e.contains("exit code Some(2)") || e.contains("exit code Some(127)") || e.contains("exit code Some(126)") {
+                    // 2: the worker's own harness-error exit; 126/127: the worker binary could not be executed
                     res.verdict = Verdict::HarnessError(e);
                 } else {
                     // the process running real egglog code died: abort / stack overflow / segfault
